@@ -17,6 +17,7 @@ CASES = [
     ("F10", "S", "s_cap1_ttl", "C03", {}), ("F12", "S", "s_cap1_ttl", "C03", {"depth": 7}), ("F7", "S", "s_cap1", "C10", {}),
     # the shortest history is nine calls long (it was found by the thorough depth of this slice)
     ("F14", "S", "s_cap1", "C03", {"depth": 9}),
+    ("F15", "S", "s_cap2_ttl_w", "C03", {"depth": 7}),
 ]
 
 
